@@ -198,7 +198,9 @@ fn parse_list(tokens: TokenStream) -> Result<Value, ParseError> {
     let mut parser = Parser::new(tokens.into_iter().collect());
     while let Some(token) = parser.peek() {
         if let TokenTree::Punct(punct) = token {
-            if punct.as_char() == '.' {
+            // A dot that is joined with the following punctuation character is
+            // the start of a symbol such as `...` or `.++`, not the pair dot.
+            if punct.as_char() == '.' && punct.spacing() == Spacing::Alone {
                 if tail.is_some() {
                     return Err(ParseError::UnexpectedChar('.'));
                 }
